@@ -22,6 +22,7 @@ import (
 	"errors"
 	"fmt"
 	"io/fs"
+	"math/rand"
 	"os"
 	"path/filepath"
 	"strconv"
@@ -38,6 +39,7 @@ const procfddir = "/proc/self/fd"
 
 type tmpfile struct {
 	f          *os.File
+	tmpdir     string
 	bucket     string
 	objname    string
 	isOTmp     bool
@@ -82,6 +84,7 @@ func (p *Posix) openTmpFile(dir, bucket, obj string, size int64, acct auth.Accou
 
 	tmp := &tmpfile{
 		f:          f,
+		tmpdir:     dir,
 		bucket:     bucket,
 		objname:    obj,
 		isOTmp:     true,
@@ -159,23 +162,19 @@ func (tmp *tmpfile) link() error {
 	// make sure this is cleaned up in all error cases
 	defer tmp.f.Close()
 
-	// We use Linkat/Rename as the atomic operation for object puts. The
-	// upload is written to a temp (or unnamed/O_TMPFILE) file to not conflict
-	// with any other simultaneous uploads. The final operation is to move the
-	// temp file into place for the object. This ensures the object semantics
-	// of last upload completed wins and is not some combination of writes
-	// from simultaneous uploads.
+	// We use Rename as the atomic operation for object puts. The upload is
+	// written to a temp (or unnamed/O_TMPFILE) file to not conflict with any
+	// other simultaneous uploads. The final operation is to move the temp
+	// file into place for the object. This ensures the object semantics of
+	// last upload completed wins and is not some combination of writes from
+	// simultaneous uploads, and an object that is overwritten is replaced in
+	// one step: there is no moment at which the name does not exist.
 	objPath := filepath.Join(tmp.bucket, tmp.objname)
 	verifhook.At("posix.link.enter")
-	err := os.Remove(objPath)
-	if err != nil && !errors.Is(err, fs.ErrNotExist) {
-		return fmt.Errorf("remove stale path: %w", err)
-	}
-	verifhook.At("posix.link.removed")
 
 	dir := filepath.Dir(objPath)
 
-	err = backend.MkdirAll(dir, tmp.uid, tmp.gid, tmp.needsChown, tmp.newDirPerm)
+	err := backend.MkdirAll(dir, tmp.uid, tmp.gid, tmp.needsChown, tmp.newDirPerm)
 	if err != nil {
 		return fmt.Errorf("make parent dir: %w", err)
 	}
@@ -191,27 +190,35 @@ func (tmp *tmpfile) link() error {
 	}
 	defer procdir.Close()
 
-	dirf, err := os.Open(dir)
+	tmpdirf, err := os.Open(tmp.tmpdir)
 	if err != nil {
-		return fmt.Errorf("open parent dir: %w", err)
+		return fmt.Errorf("open temp dir: %w", err)
 	}
-	defer dirf.Close()
+	defer tmpdirf.Close()
 
+	// give the unnamed file a name in the temp directory (which is not
+	// visible through the API) and rename that over the object
+	var tempname string
 	for {
+		tempname = fmt.Sprintf("%x.%d.%d", sha256.Sum256([]byte(tmp.objname)), os.Getpid(), rand.Uint64())
 		err = unix.Linkat(int(procdir.Fd()), filepath.Base(tmp.f.Name()),
-			int(dirf.Fd()), filepath.Base(objPath), unix.AT_SYMLINK_FOLLOW)
+			int(tmpdirf.Fd()), tempname, unix.AT_SYMLINK_FOLLOW)
 		if errors.Is(err, syscall.EEXIST) {
-			err := os.Remove(objPath)
-			if err != nil && !errors.Is(err, fs.ErrNotExist) {
-				return fmt.Errorf("remove stale path: %w", err)
-			}
 			continue
 		}
 		if err != nil {
 			return fmt.Errorf("link tmpfile (fd %q as %q): %w",
-				filepath.Base(tmp.f.Name()), objPath, err)
+				filepath.Base(tmp.f.Name()), tempname, err)
 		}
 		break
+	}
+	tempname = filepath.Join(tmp.tmpdir, tempname)
+	verifhook.At("posix.link.named")
+
+	err = renameOver(tempname, objPath)
+	if err != nil {
+		os.Remove(tempname)
+		return fmt.Errorf("rename tmpfile %q as %q: %w", tempname, objPath, err)
 	}
 
 	verifhook.At("posix.link.published")
@@ -221,6 +228,20 @@ func (tmp *tmpfile) link() error {
 	}
 
 	return nil
+}
+
+// renameOver renames a file over objPath. An empty directory at objPath
+// (left behind by earlier objects below it) is removed first, as rename
+// does not replace a directory by a file.
+func renameOver(tempname, objPath string) error {
+	err := os.Rename(tempname, objPath)
+	if errors.Is(err, syscall.EISDIR) || errors.Is(err, syscall.ENOTEMPTY) || errors.Is(err, syscall.EEXIST) {
+		if rerr := os.Remove(objPath); rerr != nil {
+			return err
+		}
+		err = os.Rename(tempname, objPath)
+	}
+	return err
 }
 
 func (tmp *tmpfile) fallbackLink() error {
@@ -239,7 +260,7 @@ func (tmp *tmpfile) fallbackLink() error {
 
 	objPath := filepath.Join(tmp.bucket, tmp.objname)
 	verifhook.At("posix.link.beforerename")
-	err = os.Rename(tempname, objPath)
+	err = renameOver(tempname, objPath)
 	verifhook.At("posix.link.published")
 	if err != nil {
 		// rename only works for files within the same filesystem
